@@ -189,7 +189,7 @@ FAM_STRIDE_FOR = {
     "C19": {"MULTICHK": (1500, 20)},
     "C18": {"MULTICHK": (2500, 40)},
     "C09": {"ONLYEPCHKPRE": (20, 2), "EPEVADE": (300, 10), "DBLCHK": (2, 1), "MULTICHK": (2500, 40)},
-    "C14": {"ONLYDBL": (12, 1), "PINMATE": (120, 4), "ONLYPROMO": (800, 16), "ONLYEPCHK": (40, 4), "PROMO": (30, 3)},
+    "C14": {"ONLYDBL": (12, 1), "PINMATE": (120, 4), "ONLYPROMO": (800, 16), "ONLYEPCHK": (40, 4), "PROMO": (8, 1)},
     "C04": {"CASTLE": (80, 4), "CASTLEEP": (1, 1), "PROMOEP": (3, 1)},
     "C05": {"CASTLE": (80, 4), "CASTLEEP": (1, 1), "PROMOEP": (3, 1)},
     "C02": {"EPEVADE": (600, 40), "EPX": (60, 8), "EPEDGE": (6, 2), "ONLYEP": (60, 8), "PROMO": (20, 2), "ROOKCAP": (4, 1), "CASTLE": (300, 30), "PIN": (2000, 200)},
